@@ -61,7 +61,8 @@ inline void dump() {
   fprintf(f, "],\"classes\":{");
   first = true;
   for (auto &kv : s().classes) {
-    fprintf(f, "%s\"%s\":%ld", first ? "" : ",", kv.first.c_str(), kv.second);
+    fprintf(f, "%s\"%s\":%ld", first ? "" : ",",
+            esc(reinterpret_cast<const uint8_t *>(kv.first.data()), kv.first.size()).c_str(), kv.second);
     first = false;
   }
   fprintf(f, "},\"samples\":[");
